@@ -337,6 +337,12 @@ func (g *Gen) NeighbourCase() *Case {
 		m.Header = mkList(2 + g.R.Intn(2))
 	}
 	m.Body = mkList(2 + g.R.Intn(5))
+	// the last field before the CheckSum field ends in the CheckSum tag's text followed by 1..7 characters (the look-alike sits at a
+	// small fixed distance from the end of the message, where a parser that looks for the trailer "near the end" would find it)
+	if g.R.Intn(2) == 0 {
+		last := &m.Body[len(m.Body)-1]
+		last.Txt = S2B(string(g.randBytes(1+g.R.Intn(4), nil)) + t.Cs.String() + "=" + "ABCDEFG"[:1+g.R.Intn(7)])
+	}
 	m.Norm()
 	c := &Case{ID: g.id("nb"), M: m, Lookalike: true}
 	var all []string
@@ -530,7 +536,10 @@ func (g *Gen) RawInputs() []*RawObs {
 					b = append(b, '=')
 				}
 				if g.R.Intn(6) > 0 {
-					if g.R.Intn(5) == 0 { // numbers a peer can put into count / length / sequence fields
+					if g.R.Intn(6) == 0 { // timestamps of every precision a peer may use, and near misses
+						b = append(b, []byte("20210208-15:51:43"+[]string{"", ".1", ".123", ".1234", ".123456", ".123456789", ".1234567890", ".123456789012",
+							".123456789012345", ".12345678901234567890", ".", ".abc", "Z", "+01:00"}[g.R.Intn(14)])...)
+					} else if g.R.Intn(5) == 0 { // numbers a peer can put into count / length / sequence fields
 						b = append(b, []byte([]string{"-1", "-2147483648", "9223372036854775807", "4611686018427387904", "99999999999999999999",
 							"+2", "00", "1e3", "0x10", "-0", "2147483648", "-9223372036854775808", "4294967296"}[g.R.Intn(13)])...)
 					} else {
@@ -596,6 +605,15 @@ func (g *Gen) RawInputs() []*RawObs {
 		if g.R.Intn(3) == 0 && len(in) > 0 { // truncate / mutate
 			in = in[:g.R.Intn(len(in))]
 		}
+	}
+	// a correctly framed message whose time-typed field carries a timestamp of some precision (the two templates with such a
+	// field: tag 1 inside a group entry's sibling, tag 52 in the body)
+	if g.R.Intn(6) == 0 {
+		tm = &rawTemplates[2+g.R.Intn(2)]
+		tag := map[string]string{"V": "1", "A": "52"}[tm.MsgType.String()]
+		val := "20210208-15:51:43" + []string{"", ".1", ".123", ".1234", ".123456", ".123456789", ".1234567890", ".123456789012",
+			".123456789012345", ".12345678901234567890", ".", ".abc", "Z", "+01:00"}[g.R.Intn(14)]
+		in = Frame(tm.Tags, "FIX.4.4", []byte("35="+tm.MsgType.String()+"\x01"+tag+"="+val+"\x01"))
 	}
 	id := g.id("r")
 	lk := tagsIn[g.R.Intn(len(tagsIn))]
